@@ -44,6 +44,7 @@ type verifEvent struct {
 	W []json.RawMessage   `json:"w,omitempty"` // [id, len, "stamp"]
 	B [][]json.RawMessage `json:"b,omitempty"` // burst: records submitted while the worker is parked
 	C *verifConc          `json:"c,omitempty"` // concurrent burst through the public logx functions
+	G bool                `json:"g,omitempty"` // held-compress stream: let the oldest held compress phase run
 	R []string            `json:"r,omitempty"` // restart: [rot0, now0, boundary date]: Close, then a new logger on the same file
 	D *string           `json:"d,omitempty"` // boundary date "2006-01-02" of the released clean-up
 }
@@ -71,6 +72,7 @@ type verifCase struct {
 	EndB       string       `json:"endb"`
 	Front      *verifFront  `json:"front,omitempty"`
 	Setup      *verifSetup  `json:"setup,omitempty"`
+	HoldGz     bool         `json:"holdgz,omitempty"` // compress phases wait for "g" events (later rotations overlap them)
 }
 
 // verifFront selects the second stream: records are submitted through the logx writer front-end
@@ -192,7 +194,23 @@ type verifDel struct {
 	After  []string    `json:"after"`
 }
 
+// verifGzGate is installed as the global logx writer in the held-compress stream: compressLogFile reports
+// through logx before it gzips, and that report parks the post-rotation goroutine until the script lets it go.
+type verifGzGate struct {
+	nopWriter
+	arrived chan chan struct{}
+}
+
+func (g *verifGzGate) Info(v any, _ ...LogField) {
+	if s, ok := v.(string); ok && strings.HasPrefix(s, "压缩日志文件：") && !strings.Contains(s, "耗时") {
+		tok := make(chan struct{})
+		g.arrived <- tok
+		<-tok
+	}
+}
+
 type verifLog struct {
+	G   bool      `json:"g,omitempty"`
 	R   bool      `json:"r,omitempty"`
 	W   *int      `json:"w,omitempty"`
 	S   string    `json:"s,omitempty"` // front-end stream: the clock string this write saw
@@ -420,6 +438,8 @@ func verifWait(cond func() bool, d time.Duration) bool {
 	return true
 }
 
+var verifPostMissing bool
+
 func verifRunCase(c verifCase) any {
 	fail := func(msg string) any { return map[string]any{"error": msg} }
 	dir, err := os.MkdirTemp("", "c19-")
@@ -556,10 +576,53 @@ func verifRunCase(c verifCase) any {
 	prevBackups := w.nBackup
 	errs := []string{}
 
+	var gate *verifGzGate
+	var held []chan struct{}
+	gzReleased := 0
+	if c.HoldGz {
+		gate = &verifGzGate{arrived: make(chan chan struct{}, 4096)}
+		atomic.StoreUint32(&disableLog, 0)
+		writer.Store(gate)
+		defer Disable()
+	}
+	missingGz, missingDel := 0, 0
+	// a post-rotation goroutine that does not show up is waited for once (long the first time in this
+	// process, briefly afterwards) and then written off, so that one anomaly cannot stall every later barrier
+	patience := func() time.Duration {
+		if verifPostMissing {
+			return 300 * time.Millisecond
+		}
+		return 5 * time.Second
+	}
 	collect := func() {
+		if gate != nil {
+			// every rotation's goroutine first parks at the compress gate
+			if !verifWait(func() bool {
+				for {
+					select {
+					case t := <-gate.arrived:
+						held = append(held, t)
+						continue
+					default:
+					}
+					break
+				}
+				return len(held)+gzReleased+missingGz >= rotations
+			}, patience()) {
+				missingGz = rotations - len(held) - gzReleased
+				verifPostMissing = true
+				errs = append(errs, "compress-phase-missing")
+			}
+		}
 		// every rotation started one postRotate goroutine; it reaches the gate (OutdatedFiles) when its
 		// compress phase is over, whether that succeeded or failed
-		verifWait(func() bool {
+		want := func() int {
+			if gate != nil {
+				return gzReleased
+			}
+			return rotations
+		}
+		if !verifWait(func() bool {
 			for {
 				select {
 				case t := <-w.tokens:
@@ -569,8 +632,22 @@ func verifRunCase(c verifCase) any {
 				}
 				break
 			}
-			return len(pending)+len(logsDeletes(logs)) >= rotations
-		}, 5*time.Second)
+			return len(pending)+len(logsDeletes(logs))+missingDel >= want()
+		}, patience()) {
+			missingDel = want() - len(pending) - len(logsDeletes(logs))
+			verifPostMissing = true
+			errs = append(errs, "delete-phase-missing")
+		}
+	}
+	runGzip := func() {
+		if len(held) == 0 {
+			return
+		}
+		close(held[0])
+		held = held[1:]
+		gzReleased++
+		collect()
+		logs = append(logs, verifLog{G: true})
 	}
 	runDelete := func(bdate string) {
 		if len(pending) == 0 {
@@ -608,7 +685,11 @@ func verifRunCase(c verifCase) any {
 		}
 		collect()
 		for _, b := range deferred {
-			runDelete(b)
+			if b == "\x00g" {
+				runGzip()
+			} else {
+				runDelete(b)
+			}
 		}
 		deferred = nil
 	}
@@ -727,6 +808,10 @@ func verifRunCase(c verifCase) any {
 	for _, e := range c.Events {
 		if e.D != nil {
 			deferred = append(deferred, *e.D)
+			continue
+		}
+		if e.G {
+			deferred = append(deferred, "\x00g")
 			continue
 		}
 		if e.R != nil {
@@ -853,6 +938,9 @@ func verifRunCase(c verifCase) any {
 	}
 	closeErr := closeLogger()
 	settle()
+	for len(held) > 0 {
+		runGzip()
+	}
 	for len(pending) > 0 {
 		runDelete(c.EndB)
 	}
